@@ -876,6 +876,9 @@ def _reduce(ip, args, kwargs):
 
 def _namedtuple(ip, args, kwargs):
     name, fields = args
+    if isinstance(fields, str):
+        fields = fields.replace(',', ' ').split()
+    fields = list(fields)
     attrs = {}
 
     def init(ip_, a, kw):
@@ -884,8 +887,24 @@ def _namedtuple(ip, args, kwargs):
             o.attrs[f] = v
         for k, v in kw.items():
             o.attrs[k] = v
-    b = I.Builtin('__init__', init)
-    attrs['__init__'] = b
+
+    def m(fn):
+        b = I.Builtin(fn.__name__, fn)
+        b.is_method = True
+        return b
+
+    def __iter__(ip_, a, kw):
+        return I.IterV([a[0].attrs[f] for f in fields])
+
+    def __getitem__(ip_, a, kw):
+        return [a[0].attrs[f] for f in fields][a[1]]
+
+    def __len__(ip_, a, kw):
+        return len(fields)
+    attrs['__init__'] = I.Builtin('__init__', init)
+    attrs['__iter__'] = m(__iter__)
+    attrs['__getitem__'] = m(__getitem__)
+    attrs['__len__'] = m(__len__)
     return I.ClassV(name, [], attrs, 'collections.' + name)
 
 
